@@ -130,16 +130,78 @@ func Mutate(t *rapid.T, p *Profile, label string) []byte {
 	return p.Repair(doc)
 }
 
+var bracketLeaves = []string{"a", "b c", "x", "`c`", "\\]", "\\[", "<b>", "&amp;", "a\nb", "<http://a.b>", "![i](u)", "[^1]", "*", "_", "~", "]", "[", "(", ")", ""}
+
+// Brackets draws nested link / image / emphasis / code / strikethrough
+// structures (depth <= 5): the shapes that exercise bracket bookkeeping.
+func Brackets(t *rapid.T, depth int, label string) string {
+	if depth <= 0 || rapid.IntRange(0, 4).Draw(t, label+"leaf") == 0 {
+		return rapid.SampledFrom(bracketLeaves).Draw(t, label+"l")
+	}
+	inner := Brackets(t, depth-1, label)
+	if rapid.IntRange(0, 3).Draw(t, label+"two") == 0 {
+		inner += " " + Brackets(t, depth-1, label)
+	}
+	switch rapid.IntRange(0, 15).Draw(t, label+"w") {
+	case 0, 1:
+		return "[" + inner + "](u)"
+	case 2, 3:
+		return "![" + inner + "](u)"
+	case 4:
+		return "[" + inner + "][r]"
+	case 5:
+		return "![" + inner + "][r]"
+	case 6:
+		return "[" + inner + "]"
+	case 7:
+		return "*" + inner + "*"
+	case 8:
+		return "**" + inner + "**"
+	case 9:
+		return "_" + inner + "_"
+	case 10:
+		return "~~" + inner + "~~"
+	case 11:
+		return "`" + inner + "`"
+	case 12:
+		return "[" + inner + "](<u v> \"t\")"
+	case 13:
+		return "[" + inner + "][]"
+	case 14:
+		return "<a href=\"" + inner + "\">"
+	default:
+		return " " + inner + " "
+	}
+}
+
+// BracketDoc wraps nested bracket structures into a small document with
+// matching definitions.
+func BracketDoc(t *rapid.T, p *Profile, label string) []byte {
+	n := rapid.IntRange(1, 3).Draw(t, label+"n")
+	var b []byte
+	for i := 0; i < n; i++ {
+		b = append(b, rapid.SampledFrom([]string{"", "", "# ", "> ", "- ", "|a|\n|-|\n|"}).Draw(t, label+"pre")...)
+		b = append(b, Brackets(t, rapid.IntRange(1, 5).Draw(t, label+"d"), label)...)
+		b = append(b, rapid.SampledFrom([]string{"\n", "\n\n", "|\n", "\n\n[r]: /u\n\n", "  \n"}).Draw(t, label+"post")...)
+	}
+	if rapid.Bool().Draw(t, label+"def") {
+		b = append(b, "\n[r]: /u 't'\n"...)
+	}
+	return p.Repair(b)
+}
+
 // Doc draws a document from the union of the shared generators.
 // maxTok bounds the soup length.
 func Doc(t *rapid.T, p *Profile, maxTok int, label string) ([]byte, string) {
-	switch k := rapid.IntRange(0, 9).Draw(t, label+"kind"); {
+	switch k := rapid.IntRange(0, 10).Draw(t, label+"kind"); {
 	case k <= 3:
 		return Soup(t, p, maxTok, label+"soup"), "soup"
 	case k <= 6:
 		return Lines(t, p, 1+maxTok/4, label+"lines"), "lines"
 	case k == 7:
 		return p.Repair(SeedDoc(t, label+"seed")), "seed"
+	case k == 8:
+		return BracketDoc(t, p, label+"br"), "brackets"
 	default:
 		return Mutate(t, p, label+"mut"), "mutate"
 	}
